@@ -18,7 +18,7 @@ package channelsubscriptions
 
 
 //@ func (*channelsubscriptions.ChannelSubscriptions).subscriber {C17,C20}
-//@   acquires {C20} ChannelSubscriptions.subscriptionsLk
+//@   acquires {C20} ChannelSubscriptions.subscriptionsLk, graphsync.Transport.dtChannelsLk, graphsync.dtChannel.lk, tracing.SpansIndex.spansLk
 //@   requires state != nil
 //@   modifies cs.subscriptions
 //@   loop 0 invariant [in-order] $i >= 0
